@@ -12,7 +12,7 @@ import (
 // and shifts every later one.
 func init() {
 	extend("C10", func(c *Ctx) {
-		c.Rule("R10f", "argvToCmdLineStr: the slice given to escape.CommandLine is the []string parameter itself, or a local defined once as make([]string, len(<parameter>)) and filled by one copy(<local>, <parameter>) — no loop, append or re-slice builds it")
+		c.Rule("R10f", "argvToCmdLineStr: the slice given to escape.CommandLine is the []string parameter itself, or a local defined once as make([]string, len(<parameter>)) and filled by one copy(<local>, <parameter>), or as append(<empty slice>, <parameter>...) — no loop, element-wise append or re-slice builds it")
 		pk := c.Pkg("")
 		if pk == nil {
 			c.Lost("R10f", "pkg:main", "package main not loaded")
@@ -64,21 +64,32 @@ func init() {
 			ds := defs[o]
 			good := len(ds) == 1 && ds[0] != nil
 			why := ""
+			// len(<parameter>), directly or through a single-definition local (`n := len(argv)`)
+			isLenOfParam := func(e ast.Expr) bool {
+				ln, isLen := isBuiltinCall(info, defs.resolve1(info, e), "len")
+				if !isLen || len(ln.Args) != 1 {
+					return false
+				}
+				pid, isID := unparen(ln.Args[0]).(*ast.Ident)
+				return isID && info.ObjectOf(pid) == param
+			}
+			cloned := false // append(<empty slice>, <parameter>...): the other spelling of a full copy
 			if good {
+				if ap, isAp := isBuiltinCall(info, ds[0], "append"); isAp && len(ap.Args) == 2 && ap.Ellipsis.IsValid() && isEmptySliceExpr(info, stripConv(info, ap.Args[0])) {
+					pid, isID := unparen(ap.Args[1]).(*ast.Ident)
+					cloned = isID && info.ObjectOf(pid) == param
+				}
+			}
+			if good && !cloned {
 				mk, isMake := isBuiltinCall(info, ds[0], "make")
-				good = isMake && len(mk.Args) == 2
-				if good {
-					ln, isLen := isBuiltinCall(info, mk.Args[1], "len")
-					good = isLen && len(ln.Args) == 1
-					if good {
-						pid, isID := unparen(ln.Args[0]).(*ast.Ident)
-						good = isID && info.ObjectOf(pid) == param
-					}
+				good = isMake && (len(mk.Args) == 2 || len(mk.Args) == 3) && isLenOfParam(mk.Args[1])
+				if good && len(mk.Args) == 3 {
+					good = isLenOfParam(mk.Args[2]) // an explicit capacity of the same length changes nothing
 				}
 				if !good {
 					why = "defined as " + c.src(ds[0])
 				}
-			} else {
+			} else if !good {
 				why = "defined more than once (or by append/loop)"
 			}
 			copies := 0
@@ -92,7 +103,11 @@ func init() {
 				}
 				return true
 			})
-			if good && copies != 1 {
+			if cloned {
+				if copies != 0 {
+					good, why = false, "cloned by append and then overwritten by copy(…)"
+				}
+			} else if good && copies != 1 {
 				good, why = false, "filled by "+itoa(copies)+" copy(…) calls of the whole parameter"
 			}
 			c.Check(good, "R10f", "argvToCmdLineStr:escaped-slice", call.Pos(), "the escaped slice %s is a full copy of the argument vector (%s) — a filtered copy drops arguments (an empty \"\" must survive as '')", id.Name, why)
